@@ -233,6 +233,16 @@ def handle (ws : List String) : String :=
       let dev := join ((scs.map Spec.traceDevs).flatten.eraseDups)
       reply m sp dev
     | _, _, _ => "bad-op"
+  | ["rebind", k, how, _site] =>
+    let h : Option Rebind := match how with
+      | "none" => some .untouched | "fn" => some .toFunction | "nonfn" => some .toNonFunction | "del" => some .deleted | _ => none
+    match kind? k, h with
+    | some kind, some h =>
+      -- observed against the constructor / prototype SAVED before the rebinding: e.name, instanceof saved,
+      -- [[Prototype]] === saved prototype, e.constructor === saved, String(e) has the class prefix
+      let out := fun (c : Caught) => c.name ++ "," ++ "+".intercalate c.instanceOf
+      reply (out (caughtAfter h kind)) (out (Spec.caughtAfter h kind)) "-"
+    | _, _ => "bad-op"
   | ["sidefx", site, _mode] =>
     let st : Option MsgSite := match site with
       | "callResult" => some .callResult | "newResult" => some .newResult | "forEach" => some .forEach | "map" => some .map
